@@ -23,6 +23,10 @@ func main() {
 		os.Exit(2)
 	}
 	name := os.Args[1]
+	if name == "__oracle" {
+		oracleMain(os.Args[2])
+		return
+	}
 	fs := flag.NewFlagSet("corr", flag.ExitOnError)
 	seed := fs.Uint64("seed", 1, "seed")
 	tier := fs.String("tier", "quick", "tier")
